@@ -52,3 +52,31 @@ Example C05_totalpower_nontrivial :
   acked (snd (exec e (dev0 4) (KA 2 $"G" 9 3))) = true /\
   readback (fst (exec e (dev0 4) (KA 2 $"G" 9 3))) 1 = Some $" GREG 9 730".
 Proof. vm_compute. repeat split; reflexivity. Qed.
+
+(* 'I s a f' acknowledged: every board reads back s, a, f *)
+Theorem C05_totalpower_I : forall e d s a f,
+  acked (snd (exec e d (KI s a f))) = true ->
+  exists s', src_of_letter s = Some s' /\ 0 <= a < 16 /\ 1 <= f < 5 /\
+    forall i, (i < length (boards d))%nat ->
+      readback (fst (exec e d (KI s a f))) i =
+      Some ([SP] ++ src_name s' ++ [SP] ++ zstr a ++ [SP] ++ zstr (bandwidth f)).
+Proof. exact tp_I_readback. Qed.
+Print Assumptions C05_totalpower_I.
+
+(* scalar registers printed by '?': sample period, calibration mark, the two periods - unchanged by
+   every command other than S / N / X; S and N read back until the next of those *)
+Theorem C05_totalpower_scalars_frame : forall e d c,
+  writes_scalars c = false -> scalars (fst (exec e d c)) = scalars d.
+Proof. exact tp_frame_scalars. Qed.
+Print Assumptions C05_totalpower_scalars_frame.
+
+Theorem C05_totalpower_S_until : forall e d v cs, Forall (fun c => writes_scalars c = false) cs ->
+  sample_period (exec_all e (fst (exec e d (KS [v]))) cs) = v.
+Proof. exact tp_S_until. Qed.
+Print Assumptions C05_totalpower_S_until.
+
+Theorem C05_totalpower_N_until : forall e d v cs, acked (snd (exec e d (KN [v]))) = true ->
+  Forall (fun c => writes_scalars c = false) cs ->
+  calOn (exec_all e (fst (exec e d (KN [v]))) cs) = v.
+Proof. exact tp_N_until. Qed.
+Print Assumptions C05_totalpower_N_until.
